@@ -16,7 +16,7 @@ def bracePair (o : Ch) : Ch := if o == 91 then 93 else if o == 40 then 41 else 1
 -- is_html.py
 def isIdent (ch : Ch) : Bool := ch == 58 || ch == 45 || isAlpha ch || isNumber ch
 def isWs (ch : Ch) : Bool := ch == 32 || ch == 9
-def isUnquotedValue (ch : Ch) : Bool := ch != 61 && !isWs ch && !isQuote ch
+def isUnquotedValue (ch : Ch) : Bool := ch != 61 && ch != 62 && !isWs ch && !isQuote ch
 def isOpenBracket (ch : Ch) : Bool := ch == 123 || ch == 40 || ch == 91
 def isCloseBracket (ch : Ch) : Bool := ch == 125 || ch == 41 || ch == 93
 
@@ -83,8 +83,10 @@ def isHtmlLoop : Nat → Str → Bool
         else if x == 61 then
           let (r2, ok) := consumeIdent r
           if ok then isHtmlLoop fuel r2 else false
-        else (consumeAttrUnquoted l2).isSome
-      | [] => (consumeAttrUnquoted l2).isSome
+        else match consumeAttrUnquoted l2 with        -- identifier was part of an unquoted value: keep looking for the tag start
+          | some r2 => isHtmlLoop fuel r2
+          | none => false
+      | [] => false
     else
       match consumeAttribute l1 with
       | some r => isHtmlLoop fuel r
